@@ -12,11 +12,21 @@ import (
 	"github.com/ory/keto/internal/namespace/ast"
 	"github.com/ory/keto/internal/relationtuple"
 	"github.com/ory/keto/internal/x"
+	"github.com/ory/keto/internal/x/graph"
 	"github.com/ory/keto/ketoapi"
 )
 
 func checkNotImplemented(_ context.Context, resultCh chan<- checkgroup.Result) {
 	resultCh <- checkgroup.Result{Err: errors.WithStack(errors.New("not implemented"))}
+}
+
+// withFreshVisited runs the check with its own cycle-detection scope. Checks
+// bind their context partly when they are built and partly when they are run,
+// so operands of non-monotone operators are scoped at both points.
+func withFreshVisited(f checkgroup.CheckFunc) checkgroup.CheckFunc {
+	return func(ctx context.Context, resultCh chan<- checkgroup.Result) {
+		f(graph.WithFreshVisited(ctx), resultCh)
+	}
 }
 
 func toTreeNodeType(op ast.Operator) ketoapi.TreeNodeType {
@@ -97,6 +107,11 @@ func (e *Engine) checkSubjectSetRewrite(
 			continue
 		}
 
+		ctx := ctx
+		if rewrite.Operation == ast.OperatorAnd {
+			ctx = graph.WithFreshVisited(ctx)
+		}
+
 		switch c := child.(type) {
 
 		case *ast.TupleToSubjectSet:
@@ -128,6 +143,12 @@ func (e *Engine) checkSubjectSetRewrite(
 		}
 	}
 
+	if rewrite.Operation == ast.OperatorAnd {
+		for i := range checks {
+			checks[i] = withFreshVisited(checks[i])
+		}
+	}
+
 	return func(ctx context.Context, resultCh chan<- checkgroup.Result) {
 		resultCh <- op(ctx, checks)
 	}
@@ -149,6 +170,8 @@ func (e *Engine) checkInverted(
 		Trace("invert check")
 
 	var check checkgroup.CheckFunc
+
+	ctx = graph.WithFreshVisited(ctx)
 
 	switch c := inverted.Child.(type) {
 
@@ -179,6 +202,8 @@ func (e *Engine) checkInverted(
 	default:
 		return checkNotImplemented
 	}
+
+	check = withFreshVisited(check)
 
 	return func(ctx context.Context, resultCh chan<- checkgroup.Result) {
 		innerCh := make(chan checkgroup.Result)
